@@ -567,4 +567,41 @@ theorem viewOf_ge_essential (created : Int) (evs : List Ev) (t c : Int)
         omega
     · exact viewFold_ge_essential t c es _ _ hc ht
 
+theorem essentialEvsAfter_t (p : Nat) (evs : List Ev) (e : Ev) (he : e ∈ essentialEvsAfter p evs) :
+    e.t ∈ essentialAfter p evs := by
+  induction evs generalizing p with
+  | nil => simp [essentialEvsAfter] at he
+  | cons x xs ih =>
+    simp only [essentialEvsAfter, essentialAfter, List.mem_append] at he ⊢
+    rcases he with he | he
+    · left; split at he <;> simp_all
+    · right; exact ih _ he
+
+theorem essentialEvs_t (evs : List Ev) (e : Ev) (he : e ∈ essentialEvs evs) : e.t ∈ essentialTimes evs := by
+  cases evs with
+  | nil => simp [essentialEvs] at he
+  | cons x xs =>
+    simp only [essentialEvs, essentialTimes, List.mem_append] at he ⊢
+    rcases he with he | he
+    · left; split at he <;> simp_all
+    · right; exact essentialEvsAfter_t _ _ _ he
+
+theorem essentialEvsAfter_mem (p : Nat) (evs : List Ev) (e : Ev) (he : e ∈ essentialEvsAfter p evs) : e ∈ evs := by
+  induction evs generalizing p with
+  | nil => simp [essentialEvsAfter] at he
+  | cons x xs ih =>
+    simp only [essentialEvsAfter, List.mem_append] at he
+    rcases he with he | he
+    · split at he <;> simp_all
+    · exact List.mem_cons_of_mem _ (ih _ he)
+
+theorem essentialEvs_mem (evs : List Ev) (e : Ev) (he : e ∈ essentialEvs evs) : e ∈ evs := by
+  cases evs with
+  | nil => simp [essentialEvs] at he
+  | cons x xs =>
+    simp only [essentialEvs, List.mem_append] at he
+    rcases he with he | he
+    · split at he <;> simp_all
+    · exact List.mem_cons_of_mem _ (essentialEvsAfter_mem _ _ _ he)
+
 end Kopf.C10
